@@ -45,7 +45,37 @@ fn show(e: &Entry<ClientRequest>) -> String {
     }
 }
 
+/// model `logstore` only: the answer of every operation that can change the catalogue of log files carries the
+/// catalogue as the index file holds it afterwards (` cat=<rows>`); other users of the session get the bare answers
+pub static WITH_CAT: std::sync::atomic::AtomicBool = std::sync::atomic::AtomicBool::new(false);
+
+async fn catalogue(index_manager: &Addr<RaftIndexManager>) -> String {
+    match index_manager.send(rnacos::raft::filestore::raftindex::RaftIndexRequest::LoadIndexInfo).await {
+        Ok(Ok(rnacos::raft::filestore::raftindex::RaftIndexResponse::RaftIndexInfo { raft_index, .. })) => {
+            let rows: Vec<String> = raft_index
+                .logs
+                .iter()
+                .map(|l| format!("{}:{}:{}:{}:{}", l.id, l.start_index, l.record_count, l.split_off_index, if l.is_close { 1 } else { 0 }))
+                .collect();
+            if rows.is_empty() { "-".to_string() } else { rows.join(",") }
+        }
+        _ => "err".to_string(),
+    }
+}
+
 async fn run_op(store: &FileStore, log_manager: &Addr<RaftLogManager>, index_manager: &Addr<RaftIndexManager>, l: &str) -> String {
+    let r = run_op_inner(store, log_manager, index_manager, l).await;
+    let first = l.split_whitespace().next().unwrap_or("");
+    if WITH_CAT.load(std::sync::atomic::Ordering::Relaxed) && matches!(first, "a" | "b" | "del" | "compact") {
+        // a round trip through the log manager first: its catalogue writes are queued before its answer
+        let _ = store.get_last_log_index().await;
+        format!("{} cat={}", r, catalogue(index_manager).await)
+    } else {
+        r
+    }
+}
+
+async fn run_op_inner(store: &FileStore, log_manager: &Addr<RaftLogManager>, index_manager: &Addr<RaftIndexManager>, l: &str) -> String {
     let ws: Vec<&str> = l.split_whitespace().collect();
     match ws.as_slice() {
         ["a", i, t, len, sd] => match store.append_entry_to_log(&entry(n(i), n(t), n(len), n(sd))).await {
@@ -118,17 +148,7 @@ async fn run_op(store: &FileStore, log_manager: &Addr<RaftLogManager>, index_man
         },
         ["files"] => "files".to_string(),
         // the catalogue of log files as the index file holds it: id:start:count:split:closed per file, in order
-        ["cat"] => match index_manager.send(rnacos::raft::filestore::raftindex::RaftIndexRequest::LoadIndexInfo).await {
-            Ok(Ok(rnacos::raft::filestore::raftindex::RaftIndexResponse::RaftIndexInfo { raft_index, .. })) => {
-                let rows: Vec<String> = raft_index
-                    .logs
-                    .iter()
-                    .map(|l| format!("{}:{}:{}:{}:{}", l.id, l.start_index, l.record_count, l.split_off_index, if l.is_close { 1 } else { 0 }))
-                    .collect();
-                format!("cat {}", if rows.is_empty() { "-".to_string() } else { rows.join(",") })
-            }
-            _ => "err".to_string(),
-        },
+        ["cat"] => format!("cat {}", catalogue(index_manager).await),
         _ => "bad-op".to_string(),
     }
 }
@@ -170,6 +190,7 @@ pub fn close(s: Option<Session>) {
 }
 
 pub fn run() {
+    WITH_CAT.store(true, std::sync::atomic::Ordering::Relaxed);
     let mut dir = tempfile::tempdir().unwrap();
     let mut sess: Option<Session> = None;
     for_each_line(|l| {
@@ -189,7 +210,15 @@ pub fn run() {
                 }
             }
             sess = start_session(dir.path().to_path_buf());
-            return if sess.is_some() { "ok".to_string() } else { "dead".to_string() };
+            return match &sess {
+                Some(s) => {
+                    // the catalogue the store starts from
+                    let (rtx, rrx) = smpsc::channel();
+                    let c = if s.tx.send(("cat".to_string(), rtx)).is_ok() { rrx.recv_timeout(std::time::Duration::from_secs(20)).unwrap_or_default() } else { String::new() };
+                    format!("ok cat={}", c.strip_prefix("cat ").unwrap_or("err"))
+                }
+                None => "dead".to_string(),
+            };
         }
         if ws.first() == Some(&"files") {
             let mut names: Vec<String> = std::fs::read_dir(dir.path())
